@@ -22,6 +22,12 @@ def make(family, rng, tier):
     scn["defer"] = ["C01.", "C02."]
     if not scn["cfg"]["multi"] and rng.random() < 0.2:
         scn["executor_permissive"] = True
+    if "pipes" in scn and rng.random() < 0.2:
+        # recurring jobs: the id of a finished pipeline comes back, possibly in another priority class
+        scn["reuse_ids"] = True
+        scn["reuse_any_class"] = rng.random() < 0.6
+        scn["reuse_seed"] = rng.randint(0, 10 ** 6)
+        scn["reuse_gap"] = 2
     return scn
 
 
